@@ -16,6 +16,7 @@ from vf.checks.common import Case, call, exc_text
 from vf.checks.c07 import translate_spec
 
 ID = "C06"
+TECHNIQUE = "runtime monitoring: post-condition monitors on operator results (closed chains, structure, kind tables, singleton identity)"
 LEVEL = "exploration"
 RULE = ("(a) operand pairs of the C01 generator (all kinds^2, int/Fraction/float, degrees 1-3) x all operator spellings: every "
         "result is checked for well-formedness and against the 5x5 kind tables; (b) for every generated shape S of every kind "
